@@ -771,6 +771,11 @@ def _kind(v):
     return 'obj'
 
 
+# comparison of an untyped value with a str also looks at the str value of a str-subclass instance (MibStatus); switched
+# on per contract (note 'str_subclass_equality') because the extra disjunct costs every other proof dearly
+STR_SUBCLASS_EQ = False
+
+
 def veq(a, b):
     """Python ``a == b`` -> bool or SBool. bool/int cross comparison (True == 1) is not modelled
     for symbolic operands (assumption A-eq)."""
@@ -803,10 +808,10 @@ def veq(a, b):
             if e is not True:
                 terms.append(e.t)
         return mkbool(z3.And(*terms)) if terms else r
-    if {ka, kb} == {'any', 'str'}:
+    if {ka, kb} == {'any', 'str'} and STR_SUBCLASS_EQ:
         # an untyped value compared with a str: an instance of a str subclass (MibStatus) compares by its str value
         t, sv = (lift(a), lift(b)) if ka == 'any' else (lift(b), lift(a))
-        return mkbool(z3.If(z3.And(PV.is_PObj(t), PV.is_PStr(PV.sval(t))), PV.sval(t) == sv, t == sv))
+        return mkbool(z3.Or(t == sv, z3.And(PV.is_PObj(t), PV.sval(t) == sv)))
     if ka != 'any' and kb != 'any' and ka != kb and not ({ka, kb} <= {'bool', 'int'}):
         if {ka, kb} <= {'list', 'tuple', 'dict', 'set', 'none', 'str', 'int', 'bool', 'bytes'}:
             return False
